@@ -69,6 +69,11 @@ created by the coupled op `newSet`) and is preserved by every coupled operation.
 
 ## Restrictions (all explicit here; the theorems hold for exactly this system)
 
+Proofs/DynReach.lean is the general system without R2, R4, R6 (sets referenced from anywhere and
+destroyed when swept, growing slot list, drops in any arena state, other arenas as environment), at
+the price of one transition that is not an `Arena.step`; the theorems about *this* system are the
+`…_partial` ones of Props/C14s.lean.
+
 * **R1 single arena.**  All sets of `d` belong to the one arena `a`.  (Handles presented to a
   foreign set are covered by the slot-table theorems alone: `C14.fetch_identity`.)
 * **R2 sets are pinned in root slots.**  A set is created inside a `mutate_root` callback and its
@@ -88,8 +93,12 @@ created by the coupled op `newSet`) and is preserved by every coupled operation.
 * **R6 `MarkedArena` window.**  Like every `GcArena.Op`, the ops of the drop encoding reset the
   model's `marked` flag: a handle dropped between `finish_marking()` and `MarkedArena::finalize`
   is modelled as dropping the `MarkedArena` first (the `finalize` callback is then rejected).
-  Handle drops in every other state — including between two collection increments, in any phase —
-  are covered.
+  Precisely: the excluded histories are those of the shape `finish_marking()` (or `mark_debt()`)
+  returning `Some(marked)`, then a drop of the *last* handle of some slot, then
+  `marked.finalize(..)`; clones, fetches and drops that leave another handle of the slot do not touch
+  the arena and are not excluded, and handle drops in every other state — including between two
+  collection increments, in any phase — are covered.  (The general system has no such exclusion
+  and its `finalize` callbacks may fetch and stash: Props/C14s.lean `gdemo`.)
 * `stash`, `fetch`, `newSet` need an active callback (they take `&Mutation`), `stash` needs the
   stashed pointer held: what safe Rust demands.  A coupled op whose guard fails changes nothing.
 -/
